@@ -13,7 +13,7 @@ import random
 from .. import canon_session, doccheck, engine_oracles, engine_run, gen, ooxml, sem
 
 PROFILE = {"vmerge": 0.0, "point_comment": 0.0, "hyperlink": 0.02, "ins": 0.3, "del": 0.25, "subst": 0.2, "comment": 0.1,
-           "header": 0.3, "footer": 0.2, "blocks": (1, 4)}
+           "header": 0.3, "footer": 0.2, "blocks": (1, 4), "shared_rev_id": 0.35, "tab": 0.2, "br": 0.15}
 PROFILES = {"default": PROFILE, "small": dict(PROFILE, blocks=(1, 2), runs=(2, 4), table=0.1, header=0.0, footer=0.0)}
 
 
@@ -147,6 +147,12 @@ def oracle(res):
             d = sem.first_diff(exp[k], got[k])
             fails.append(f"paragraph {k}: characters / states after the actions differ from 'exactly the addressed change': "
                          f"first difference {str(d)[:300]}")
+    # what a rejected deletion restores is ordinary text again (no w:delText left outside a deletion, no w:t inside one)
+    before = set(engine_oracles.nesting_problems(doc))
+    for pr in engine_oracles.nesting_problems(r["out_doc"]):
+        if pr not in before:
+            fails.append("after the actions: " + pr)
+            break
     # headers / footers untouched
     for part in ("headers", "footers"):
         a, b = sem.canon_doc(doc)[part], sem.canon_doc(r["out_doc"])[part]
